@@ -33,9 +33,11 @@ func (q *priorityQueue[T]) Add(data T, priority int, configs ...JobConfigFunc) (
 	// must precede Enqueue: once visible, the job may already be Processing or Closed
 	j.changeStatus(queued)
 	if ok := q.internalQueue.Enqueue(j, priority); !ok {
+		vhook("add.enq", j, false)
 		j.Close()
 		return nil, false
 	}
+	vhook("add.enq", j, true)
 
 	q.w.Metrics().incSubmitted()
 	q.w.notifyToPullNextJobs()
@@ -52,9 +54,11 @@ func (q *priorityQueue[T]) AddAll(items []Item[T]) EnqueuedGroupJob {
 		// must precede Enqueue: once visible, the job may already be Processing or Closed
 		j.changeStatus(queued)
 		if ok := q.internalQueue.Enqueue(j, item.Priority); !ok {
+			vhook("add.enq", j, false)
 			j.Close()
 			continue
 		}
+		vhook("add.enq", j, true)
 
 		q.w.Metrics().incSubmitted()
 		q.w.notifyToPullNextJobs()
@@ -95,9 +99,11 @@ func (q *resultPriorityQueue[T, R]) Add(data T, priority int, configs ...JobConf
 	// must precede Enqueue: once visible, the job may already be Processing or Closed
 	j.changeStatus(queued)
 	if ok := q.internalQueue.Enqueue(j, priority); !ok {
+		vhook("add.enq", j, false)
 		j.Close()
 		return nil, false
 	}
+	vhook("add.enq", j, true)
 
 	q.w.Metrics().incSubmitted()
 	q.w.notifyToPullNextJobs()
@@ -114,9 +120,11 @@ func (q *resultPriorityQueue[T, R]) AddAll(items []Item[T]) EnqueuedResultGroupJ
 		// must precede Enqueue: once visible, the job may already be Processing or Closed
 		j.changeStatus(queued)
 		if ok := q.internalQueue.Enqueue(j, item.Priority); !ok {
+			vhook("add.enq", j, false)
 			j.Close()
 			continue
 		}
+		vhook("add.enq", j, true)
 
 		q.w.Metrics().incSubmitted()
 		q.w.notifyToPullNextJobs()
@@ -157,9 +165,11 @@ func (q *errorPriorityQueue[T]) Add(data T, priority int, configs ...JobConfigFu
 	// must precede Enqueue: once visible, the job may already be Processing or Closed
 	j.changeStatus(queued)
 	if ok := q.internalQueue.Enqueue(j, priority); !ok {
+		vhook("add.enq", j, false)
 		j.Close()
 		return nil, false
 	}
+	vhook("add.enq", j, true)
 
 	q.w.Metrics().incSubmitted()
 	q.w.notifyToPullNextJobs()
@@ -176,9 +186,11 @@ func (q *errorPriorityQueue[T]) AddAll(items []Item[T]) EnqueuedErrGroupJob {
 		// must precede Enqueue: once visible, the job may already be Processing or Closed
 		j.changeStatus(queued)
 		if ok := q.internalQueue.Enqueue(j, item.Priority); !ok {
+			vhook("add.enq", j, false)
 			j.Close()
 			continue
 		}
+		vhook("add.enq", j, true)
 
 		q.w.Metrics().incSubmitted()
 		q.w.notifyToPullNextJobs()
